@@ -468,6 +468,12 @@ func (r *Result) facts(v ssa.Value, st pstate, depth int) Abs {
 		return AUnknown
 	}
 	b := fn.Blocks[st.blk]
+	// A value defined in the state's own block is a fresh instance there:
+	// what an earlier edge said about the previous instance (loop-carried
+	// re-execution) does not apply to it.
+	if in, ok := v.(ssa.Instruction); ok && in.Block() == b {
+		return AUnknown
+	}
 	// incoming edge
 	if st.pred >= 0 {
 		p := fn.Blocks[st.pred]
@@ -770,3 +776,4 @@ func Origin(v ssa.Value) ssa.Value {
 	}
 	return v
 }
+
